@@ -1036,6 +1036,11 @@ impl<'a> Evaluator<'a> {
                 }
                 Ok(Val::Unit)
             }
+            Expr::Try(t) => match self.eval(&t.expr, env)? {
+                Val::Ctor(n, p, _) if n == "Ok" || n == "Some" => Ok(p.into_iter().next().unwrap_or(Val::Unit)),
+                Val::Ctor(n, p, f) if n == "Err" || n == "None" => Ok(Val::Ctor("$return".into(), vec![Val::Ctor(n, p, f)], BTreeMap::new())),
+                o => Ok(o),
+            },
             Expr::Break(_) => Ok(Val::Ctor("$break".into(), vec![], BTreeMap::new())),
             Expr::Continue(_) => Ok(Val::Ctor("$continue".into(), vec![], BTreeMap::new())),
             Expr::Index(ix) => {
